@@ -92,7 +92,30 @@ pub struct ThreadMon {
     pub destructing: Option<u32>,
 }
 
+#[derive(Default, Clone, Debug)]
+pub struct DefInfo {
+    /// critical-section instances that were active when the closure was deferred
+    pub active_at_defer: Vec<u32>,
+    pub runs: u32,
+    pub by: usize,
+    pub ran_at: u64,
+}
+
+/// Harness-level view of the epoch collector: critical-section instances (from the response of
+/// the outermost pin to the invocation of the matching unpin / reactivate) and deferred closures.
+#[derive(Default)]
+pub struct EbrMon {
+    pub active: [Option<u32>; sched::MAX_THREADS],
+    pub depth: [u32; sched::MAX_THREADS],
+    pub ended: Vec<bool>,
+    pub deferred: Vec<DefInfo>,
+    pub list_inserted: HashMap<usize, (u64, u64)>,
+    pub list_deleted: HashMap<usize, u64>,
+    pub list_finalized: HashMap<usize, u32>,
+}
+
 pub struct Monitor {
+    pub ebr: EbrMon,
     pub objs: Vec<Obj>,
     pub by_addr: HashMap<usize, u32>,
     pub by_node: HashMap<u32, u32>,
@@ -159,6 +182,7 @@ fn default_word_addr(w: usize) -> usize {
 impl Monitor {
     pub fn new(trace: bool) -> Self {
         Monitor {
+            ebr: EbrMon::default(),
             objs: Vec::new(),
             by_addr: HashMap::new(),
             by_node: HashMap::new(),
@@ -607,6 +631,97 @@ impl Monitor {
                     }
                 }
             }
+        }
+    }
+
+    // ---------------------------------------------------------------------------------
+    // epoch collector, harness level
+
+    /// The outermost guard of thread `t` has been obtained.
+    pub fn cs_enter(&mut self, t: usize) {
+        self.ebr.depth[t] += 1;
+        if self.ebr.depth[t] == 1 {
+            let id = self.ebr.ended.len() as u32;
+            self.ebr.ended.push(false);
+            self.ebr.active[t] = Some(id);
+            self.log(|| format!("cs-instance {} begins", id));
+        }
+    }
+
+    /// A guard of thread `t` is about to be dropped.
+    pub fn cs_leave(&mut self, t: usize) {
+        self.ebr.depth[t] -= 1;
+        if self.ebr.depth[t] == 0 {
+            if let Some(id) = self.ebr.active[t].take() {
+                self.ebr.ended[id as usize] = true;
+                self.log(|| format!("cs-instance {} ends", id));
+            }
+        }
+    }
+
+    /// Reactivation of the sole guard: the instance ends (and a new one begins afterwards).
+    pub fn cs_restart_begin(&mut self, t: usize) -> bool {
+        if self.ebr.depth[t] == 1 {
+            if let Some(id) = self.ebr.active[t].take() {
+                self.ebr.ended[id as usize] = true;
+            }
+            true
+        } else {
+            false
+        }
+    }
+
+    pub fn cs_restart_end(&mut self, t: usize) {
+        if self.ebr.depth[t] == 1 && self.ebr.active[t].is_none() {
+            let id = self.ebr.ended.len() as u32;
+            self.ebr.ended.push(false);
+            self.ebr.active[t] = Some(id);
+        }
+    }
+
+    pub fn closure_deferred(&mut self, t: usize) -> usize {
+        let active: Vec<u32> = self.ebr.active.iter().flatten().copied().collect();
+        self.ebr.deferred.push(DefInfo {
+            active_at_defer: active,
+            runs: 0,
+            by: t,
+            ran_at: 0,
+        });
+        let id = self.ebr.deferred.len() - 1;
+        self.mix(0x50 ^ ((id as u64) << 8) ^ ((t as u64) << 40));
+        self.log(|| format!("closure {} deferred", id));
+        id
+    }
+
+    pub fn closure_ran(&mut self, id: usize) {
+        let clock = self.clock;
+        self.mix(0x51 ^ ((id as u64) << 8));
+        self.log(|| format!("closure {} runs", id));
+        self.cover("closure-ran");
+        let Some(d) = self.ebr.deferred.get_mut(id) else {
+            return;
+        };
+        d.runs += 1;
+        d.ran_at = clock;
+        let runs = d.runs;
+        let still: Vec<u32> = d
+            .active_at_defer
+            .iter()
+            .copied()
+            .filter(|&i| !self.ebr.ended[i as usize])
+            .collect();
+        if runs > 1 {
+            self.violate("C15", "ran-twice", format!("deferred function {} ran {} times", id, runs));
+        }
+        if let Some(i) = still.first() {
+            self.violate(
+                "C13",
+                "ran-under-active-section",
+                format!(
+                    "deferred function {} ran while critical section instance {} that was active when it was deferred is still active",
+                    id, i
+                ),
+            );
         }
     }
 
